@@ -508,6 +508,16 @@ def main(a0: fp.Real, a1: fp.Real):
         b = a / 3 + a0
     return a + b
 ''', ['r', 'r'], 'fixed'),
+    # FPCore's `(fixed scale nbits)` is two's complement: an unsigned format has no spelling, so this is either refused
+    # (a counted skip) or, if it is ever compiled, must still mean what the interpreter computes on negative operands
+    ('unsigned-fixed-block', '''
+@fp.fpy
+def main(a0: fp.Real, a1: fp.Real):
+    with fp.FixedContext(False, {s1}, {n1}, fp.RM.{rm1}, fp.OV.SATURATE):
+        a = a0 * a1
+        b = a - a0
+    return (a, b)
+''', ['r', 'r'], 'fixed'),
     ('declared-ctx-and-block', '''
 @fp.fpy(ctx={c1})
 def main(a0: fp.Real, a1: fp.Real):
